@@ -21,7 +21,7 @@ from concurrent.futures import ProcessPoolExecutor, as_completed
 
 from .kernel import DecisionStream, HarnessError, Sim, Violation
 from .net import SimReactor
-from .seams import Seams, REPO
+from .seams import Seams, REPO, scratch_base
 
 VERIF = os.path.dirname(os.path.dirname(os.path.abspath(__file__)))
 def REPLAYS():
@@ -448,7 +448,7 @@ def drive(prop, tier, base_seed, nruns, budget_s, workers=None, sweep=True):
     t0 = time.time()
     module = _import_check(prop)
     workers = workers or int(os.environ.get('VERIF_WORKERS', '16'))
-    scratch = '/dev/shm/txdbus-sim-%d' % os.getpid()
+    scratch = os.path.join(scratch_base(), 'txdbus-sim-%d' % os.getpid())
     os.environ['VERIF_SCRATCH'] = scratch
     deadline = t0 + budget_s
     ctx = multiprocessing.get_context('fork')
@@ -585,7 +585,7 @@ def write_evidence(module, tier, base_seed, total, nviol):
 
 
 def check_main(prop, tier, replay=None):
-    scratch = '/dev/shm/txdbus-sim-%d' % os.getpid()
+    scratch = os.path.join(scratch_base(), 'txdbus-sim-%d' % os.getpid())
     os.environ['VERIF_SCRATCH'] = scratch
     try:
         if replay:
